@@ -66,13 +66,13 @@ def check_scalar(  # noqa: PLR0913
     """
     if typ is not None and not isinstance(value, typ):  # type: ignore
         raise TypeError(f"{name} must be an instance of {typ}.")
-    if ge is not None and value < ge:
+    if ge is not None and not value >= ge:
         raise ValueError(f"{name} == {value}, must be >= {ge}.")
-    if gt is not None and value <= gt:
+    if gt is not None and not value > gt:
         raise ValueError(f"{name} == {value}, must be > {gt}.")
-    if le is not None and value > le:
+    if le is not None and not value <= le:
         raise ValueError(f"{name} == {value}, must be <= {le}.")
-    if lt is not None and value >= lt:
+    if lt is not None and not value < lt:
         raise ValueError(f"{name} == {value}, must be < {lt}.")
     if ne is not None and value == ne:
         raise ValueError(f"{name} == {value}, must be != {ne}.")
